@@ -264,7 +264,8 @@ fn exec_line(rec: &mut Recorder, inst: &mut Option<Inst>, line: &str) {
         "avail" => match (inst.as_mut(), parse_inj(&ws[1..])) {
             (Some(i), Some(inj)) => {
                 let before: u64 = i.df.current_tick().into();
-                let injected_late = !inj.is_empty();
+                // a send at/after `rt_call` of the first round (visit >= 2) is an external wake-up after the flag was cleared
+                let injected_late = inj.keys().any(|&k| k >= 2);
                 let (calls, _) = i.with_hook(inj, |df| {
                     df.run_available_sync();
                 });
@@ -272,7 +273,10 @@ fn exec_line(rec: &mut Recorder, inst: &mut Option<Inst>, line: &str) {
                 let outs = i.collect(before, after);
                 rec.check(after == before + calls && calls >= 1, "tick-counter-not-plus-one", &format!("prog={} before={} after={} closure calls={}", i.dsl, before, after, calls));
                 i.oracles(rec, before, after, true);
-                let _ = injected_late;
+                if !injected_late && !i.dsl.split(',').any(|st| st == "D" || st.starts_with('C')) {
+                    // only lazy delays and no external wake-up after the flag was cleared: exactly one tick
+                    rec.check(calls == 1, "run_available-ticked-again-on-lazy-data-alone", &format!("prog={} ticks run={}", i.dsl, calls));
+                }
                 rec.count("avail");
                 rec.count_n("avail-ticks", calls);
                 if calls > 1 {
